@@ -308,9 +308,7 @@ def autoArray (g : Graph) (blockPath : Path) (name type : String) (fault : Optio
 /-- `del self.data_arrays[name]` for an auto-created array -/
 def dropAuto (g : Graph) (k : Option Nat) : Graph :=
   match k with
-  | some a => match g.entityId a with
-    | some i => g.deleteAll [i]
-    | none => g
+  | some a => g.deleteObjs [a]
   | none => g
 
 /-- `isinstance(x, DataArray)`: any other object is handed to `create_data_array(data=x)`, where
